@@ -188,6 +188,12 @@ pub fn alphabet(inst: usize, allowed: &[u16], ids: &[u16], layouts: usize, extra
         add(format!("T(IPFIX, template id {} = a template-set id, A)", tid), ipm(vec![ip_t(tid, 0)]), None, 10, true);
         add(format!("OT(IPFIX, template id {} = a template-set id)", tid), ipm(vec![ip_ot(tid)]), None, 10, true);
     }
+    if extras {
+        // V9 options templates with scope length 0 or option length 0: well formed, the latest definition of the id
+        let id = ids[0];
+        add(format!("OT-without-scope(V9,{})", id), v9p(vec![V9Set::OptTpl(vec![V9OptTpl { id, scope: vec![], opts: vec![fs(34, 4), fs(36, 4)] }], 0)]), None, 9, true);
+        add(format!("OT-without-options(V9,{})", id), v9p(vec![V9Set::OptTpl(vec![V9OptTpl { id, scope: vec![fs(1, 4), fs(2, 4)], opts: vec![] }], 0)]), None, 9, true);
+    }
     for tid in if extras { vec![0u16, 1] } else { vec![] } {
         add(format!("T(V9, template id {} = a template-flowset id, A)", tid), v9p(vec![v9_t(tid, 0)]), None, 9, true);
         add(format!("OT(V9, template id {} = a template-flowset id)", tid), v9p(vec![v9_ot(tid)]), None, 9, true);
